@@ -252,7 +252,28 @@ Definition show_trace (args : list str) : str :=
   | _ => bs "?args"
   end.
 
+(* ---- dispatch.tmpdone: AddTmp whose handler is removed by somebody else first ------------ *)
+
+(* mode ("d" deadline passes / "r" the function returns true), remover ("R" Remove(cuid),
+   "C" Clear(cmd), "X" ClearAll, "-" nobody), cmd.  The remover acts after the registration
+   and before the wrapper's / deadline goroutine's own Remove(cuid), which closes done only
+   when it succeeds. *)
+Definition show_tmpdone (args : list str) : str :=
+  match args with
+  | _ :: rem :: cmd :: _ =>
+    let (t0, cuid) := register empty_table false true cmd (uid_str 0) (mkH 0 true) in
+    let '(t1, r1) :=
+      if one_byte06 82 rem then let (t, ok) := remove t0 cuid in (t, show_bool ok)
+      else if one_byte06 67 rem then (clear t0 cmd, [45])
+      else if one_byte06 88 rem then (clear_all t0, [45])
+      else (t0, [45]) in
+    let (_, ok2) := remove t1 cuid in
+    bs "ok1=" ++ r1 ++ bs ";closed=" ++ show_bool ok2
+  | _ => bs "?args"
+  end.
+
 Definition run_C06 (suite : str) (args : list str) : option str :=
   if streqb suite (bs "dispatch.table") then Some (show_table_ops args)
   else if streqb suite (bs "dispatch.trace") then Some (show_trace args)
+  else if streqb suite (bs "dispatch.tmpdone") then Some (show_tmpdone args)
   else None.
